@@ -21,7 +21,7 @@ Definition exAb := [false; false; true].
 Definition exIni : list Q := [1#2; 1#2; 0].
 Definition exbl : list Q := [1#2; 1#2; 0].      (* a belief with a zero component *)
 Definition exbl2 : list Q := [0; 0; 1].         (* all mass on the absorbing state *)
-Definition extol : Q := 1 # 1000000000000.
+Definition extol : Q := 1 # 10000000000000.
 
 Definition exmQ : pomdp Q := mQ 3 2 3 exP exR exAb exIni (9#10) exOb.
 Definition exmR : pomdp R := mR 3 2 3 exP exR exAb exIni (9#10) exOb.
